@@ -9,12 +9,19 @@ CONSTANTS
   v0 = v0
   v1 = v1
   v2 = v2
+  c0 = c0
+  c1 = c1
+  c2 = c2
+  cb = cb
   bad = bad
   unk = unk
   Threads = {t1, t2, t3}
   Main = t1
   Opts = {o1, o2, o3}
   Vals = {v0, v1, v2}
+  Cells = {c0, c1, c2, cb}
+  Mutable = {}
+  Heap0 <- Heap3
   Default <- Def3
   Bad = bad
   Unknown = unk
@@ -22,12 +29,16 @@ CONSTANTS
   MaxMap = 3
   SimDepth = 10
 INVARIANT Emit
+INVARIANT TypeOK
+INVARIANT HeapUntouched
 INVARIANT CallIsolation
 INVARIANT RejectAtomic
 INVARIANT SetExact
 INVARIANT Restore
 INVARIANT UnnamedKept
 INVARIANT BlockTransparent
+INVARIANT SavedIsEntry
+INVARIANT NestedRestore
 INVARIANT ThreadIsolation
 INVARIANT FreshThreadDefaults
 CHECK_DEADLOCK FALSE
